@@ -217,7 +217,7 @@ def main(rep):
                 validated += 1
         # argv under the sanitizers
         argv = []
-        toks = ["-c", "-d", "-w", "-e", "-h", "-v", "-x", "--", "x", ""]
+        toks = ["-c", "-d", "-w", "-e", "-h", "-v", "-x", "--", "x", "", "-"]
         n = 0
         for ln in range(0, 4 if rep.tier == "quick" else 5):
             for combo in itertools.product(toks, repeat=ln):
